@@ -15,6 +15,20 @@
 #include "sbuf/SBuf.h"
 #include "uhelp.h"
 #include <map>
+#include <dlfcn.h>
+#include <netdb.h>
+
+// Environment model: the resolver knows no host names.  ProxyProtocol::One::ExtractIp() hands the address token to
+// Ip::Address::GetHostByName(), which would make a blocking DNS query for every token that is not an IP literal; the
+// driver answers such queries with "not found" (AI_NUMERICHOST) so that runs are deterministic and fast.
+extern "C" int getaddrinfo(const char *node, const char *service, const struct addrinfo *hints, struct addrinfo **res) {
+    using Fn = int (*)(const char *, const char *, const struct addrinfo *, struct addrinfo **);
+    static Fn real = reinterpret_cast<Fn>(dlsym(RTLD_NEXT, "getaddrinfo"));
+    struct addrinfo h;
+    if (hints) h = *hints; else memset(&h, 0, sizeof(h));
+    h.ai_flags |= AI_NUMERICHOST;
+    return real(node, service, &h, res);
+}
 
 static std::string AddrBytes(const Ip::Address &a) {
     struct in6_addr x;
